@@ -682,7 +682,7 @@ func isZero(v ssa.Value) bool {
 func returnsOf(fn *ssa.Function) []*ssa.Return {
 	var out []*ssa.Return
 	core.EachInstr(fn, func(_ *ssa.BasicBlock, _ int, in ssa.Instruction) {
-		if r, ok := in.(*ssa.Return); ok {
+		if r, ok := in.(*ssa.Return); ok && r.Block().Comment != "recover" {
 			out = append(out, r)
 		}
 	})
